@@ -1,6 +1,10 @@
 (* The two tokenizer fragments combined: documents over '=', '\n', '&', '#', ';' and non-markers in which no line
    begins with '#' or ';' - plain text, HTML entities, and section headings whose titles may contain entities.
 
+   HTML comments (which may span lines and contain '=') are covered too: the WHOLE document is scanned into atoms first and
+   lines are cut at the newline ATOMS, so a newline inside a comment does not end a line ('<' as in EntityFrag.v; no line
+   begins with '-').
+
    Entities are recognised first (EntityFrag.scan: the recognition does not depend on the context - inside a heading
    _parse_entity runs in the same way, and a position that is parsed twice because a heading route failed gives the
    same result from the bad-route memo); the heading logic of HeadingFrag.v then runs over the resulting atoms
@@ -58,14 +62,20 @@ Fixpoint hbA (md depth cur : nat) (ss : list segA) : option (list atom * nat * l
 
 Inductive item := IT (a : atom) | IH (title : list atom) (level : nat).
 
-Section WithTables.
-Variable markers : list N.
-Variable names : list str.
-Variable max_size : nat.
+Definition a_is_nl (a : atom) : bool := match a with ET c => is_nl c | EE _ => false end.
+
+Fixpoint linesA (s : list atom) : list (list atom) :=
+  match s with
+  | [] => [[]]
+  | c :: t =>
+      if a_is_nl c then [] :: linesA t
+      else match linesA t with l :: ls => (c :: l) :: ls | [] => [[c]] end
+  end.
+
+Section WithDepth.
 Variable md : nat.
 
-Definition tok_lineA (line : str) : list item :=
-  let atoms := scan markers names max_size 0 line in
+Definition tok_lineA (atoms : list atom) : list item :=
   let '(a, r) := span_eqA atoms in
   match a with
   | O => map IT atoms
@@ -77,12 +87,13 @@ Definition tok_lineA (line : str) : list item :=
       end
   end.
 
-Fixpoint join_linesA (ls : list str) : list item :=
+Fixpoint join_linesA (ls : list (list atom)) : list item :=
   match ls with
   | [] => []
   | [l] => tok_lineA l
   | l :: rest => tok_lineA l ++ IT (ET 10%N) :: join_linesA rest
   end.
+End WithDepth.
 
 Fixpoint mmerge (acc : str) (is : list item) : code :=
   match is with
@@ -92,6 +103,7 @@ Fixpoint mmerge (acc : str) (is : list item) : code :=
   | IH title l :: t => eflush acc ++ NHeading (emerge [] title) (Z.of_nat l) :: mmerge [] t
   end.
 
-Definition mfrag_nodes (s : str) : code := mmerge [] (join_linesA (lines s)).
-Definition mfrag_tokens (s : str) : list token := fl_code (mfrag_nodes s).
-End WithTables.
+Definition mfrag_nodes (markers : list N) (names : list str) (max_size md : nat) (s : str) : code :=
+  mmerge [] (join_linesA md (linesA (scan markers names max_size 0 s))).
+Definition mfrag_tokens (markers : list N) (names : list str) (max_size md : nat) (s : str) : list token :=
+  fl_code (mfrag_nodes markers names max_size md s).
